@@ -237,7 +237,7 @@ func c04Fraction(p *ana.Prog, r *ana.Result, pset *ana.ProverSet, from, to *ssa.
 	link := ana.NewLin(0, map[string]int64{"B:t.Fraction": 1}).Add(fA, -1)
 	facts = append(facts, link, ana.NewLin(0, nil).Add(link, -1))
 	n := ana.NewLin(0, map[string]int64{"A:" + nAtom: 1})
-	notLater := n.Add(mB, -1)                             // n - n' >= 0
+	notLater := n.Add(mB, -1)                           // n - n' >= 0
 	within1 := mB.Add(n, -1).Add(ana.NewLin(1, nil), 1) // n' - n + 1 >= 0
 	hasFrac := false
 	for _, f := range facts {
